@@ -184,3 +184,18 @@ Proof.
     apply pair_eqb_spec in Hp. specialize (E r Hr). rewrite Hp in E. apply Nat.leb_le in E. lia. }
   rewrite C. reflexivity.
 Qed.
+
+Open Scope R_scope.
+(* an oriented mesh (open, or closed with non-negative enclosed volume) is a fixed point: nothing changes, 0 is returned;
+   together with the correspondence-checked fact that the result of orient_ is oriented this is idempotence *)
+Theorem orient_fixed_point v ts : is_oriented ts = true ->
+  (is_closed ts = false \/ 0 <= sumK Rops (map (tri_spat Rops v) ts) / 6) ->
+  orient Rops v ts = Ok (ts, 0%nat).
+Proof.
+  intros Ho Hv. unfold orient, orient_stage1. rewrite Ho. unfold tria_volume. rewrite Ho. cbn [negb].
+  destruct (is_closed ts) eqn:Ec; cbn [negb].
+  - destruct Hv as [Hv|Hv]; [discriminate|]. cbn [ltb div ofZ zero Rops].
+    destruct (Rltb (sumK Rops (map (tri_spat Rops v) ts) / 6) 0) eqn:E; [apply Rltb_true in E; lra|reflexivity].
+  - cbn [ltb zero Rops]. destruct (Rltb 0 0) eqn:E; [apply Rltb_true in E; lra|reflexivity].
+Qed.
+Close Scope R_scope.
